@@ -206,6 +206,31 @@ var layouts = []layout{
 		}
 		return "\n   "
 	}, ""},
+	// CR LF line ends (one line break each), a lone CR between tokens (no line break), comments spanning lines
+	{"vertical-crlf", func(i int) string {
+		if i == 0 {
+			return ""
+		}
+		return "\r\n "
+	}, "\r\n"},
+	{"cr-gaps", func(i int) string {
+		if i == 0 {
+			return "\r"
+		}
+		if i%3 == 0 {
+			return "\r\n\r"
+		}
+		return "\r"
+	}, "\r"},
+	{"comment-gaps", func(i int) string {
+		switch i % 3 {
+		case 0:
+			return "/* a\r\n * b\n*/"
+		case 1:
+			return " // c\r\n\t"
+		}
+		return " /**/ "
+	}, " // end"},
 }
 
 type input struct {
@@ -380,7 +405,7 @@ func main() {
 		r.Finish()
 	}
 	if r.Fork(16) {
-		r.Set("rule", "5 valid token sequences (7-70 tokens) x {delete token i, insert each of the 22 kinds before token i, replace token i by each kind, truncate before token i} for every i, and 12 kinds of lexical damage in every gap; each in a one-line and a one-token-per-line layout; each rejected mutant re-rendered with 4 different continuations after the offending token; non-trivial = a mutant that is not a specification; distinct by text")
+		r.Set("rule", "5 valid token sequences (7-70 tokens) x {delete token i, insert each of the 22 kinds before token i, replace token i by each kind, truncate before token i} for every i, and 12 kinds of lexical damage in every gap; each in five layouts (one line; one token per line; CR LF line ends; lone CRs between tokens; block and line comments with LF and CR LF inside in every gap); each rejected mutant re-rendered with 4 different continuations after the offending token; non-trivial = a mutant that is not a specification; distinct by text")
 		r.Set("evaluations", r.Get("mutants"))
 		r.Finish()
 	}
